@@ -169,6 +169,8 @@ def run(ctx):
     vh = VH(vh_bin(), locklog=os.path.join(ctx.scratch_root, "lock_vh.log"))
     try:
         pinned(ctx, vh)
+        if os.environ.get("VERIF_ONLY_PINNED"):
+            return
         for h in range(n_hist):
             root = ctx.scratch(f"h{h}")
             ws = gen.gen_workspace(root, ctx.rng, depth=ctx.rng.randint(1, 2), venv=False)
